@@ -264,7 +264,7 @@ func ruleThreshold(c *Ctx) {
 		if filterNil == nil {
 			bad = append(bad, "the configured filter is not tested for nil on "+where)
 		} else if *filterNil {
-			if g := regexGlobalOf(r.Args[0]); g == nil || g.Name() != "defaultCompressContentTypeFilter" {
+			if g := regexGlobalOf(r.Args[0]); g == nil || !c.P.neverNilGlobal(g) || g.Pkg() == nil || g.Pkg().Path() != pkgPath("cache") {
 				bad = append(bad, "with no configured filter the matcher is "+prettyTerm(r.Args[0])+", not the default filter, on "+where)
 			}
 		} else if !isRespField(r.Args[0], "CompressContentTypeFilter") {
